@@ -61,7 +61,7 @@ structure ArgsOK (reg : Reg) (defs : List InField) : Prop where
   defaultsConform : ∀ d, d ∈ defs → ∀ v, d.default = some v → Conforms reg d.type v
 
 def Lit.isLeaf : Lit → Bool
-  | .null => true | .int _ => true | .float _ => true | .str _ => true | .bool _ => true | .enum _ => true
+  | .null => true | .int _ => true | .float _ _ => true | .str _ => true | .bool _ => true | .enum _ => true
   | _ => false
 
 /-- The variables used inside literal `l` at a position of type `ty` hold values that fit that position
@@ -93,18 +93,18 @@ inductive AstOfJson (reg : Reg) : Ty → JV → Lit → Prop
   | nonNull {t : Ty} {j : JV} {l : Lit} : t.isNonNull = false → AstOfJson reg t j l → AstOfJson reg (.nonNull t) j l
   | intInt {n : String} {k : Int} : reg.get? n = some .int → AstOfJson reg (.named n) (.int k) (.int k)
   | floatInt {n : String} {k : Int} : reg.get? n = some .float → AstOfJson reg (.named n) (.int k) (.int k)
-  | floatFloat {n : String} {t : String} {i : Option Int} : reg.get? n = some .float →
-      AstOfJson reg (.named n) (.float t i) (.float t)
-  | string {n : String} {s : String} {a : Option Int} {b : Option (String × Option Int)} : reg.get? n = some .string →
+  | floatFloat {n : String} {t : String} {i : Option Int} {c : FCls} : reg.get? n = some .float →
+      AstOfJson reg (.named n) (.float t i c) (.float t c)
+  | string {n : String} {s : String} {a : Option Int} {b : Option (String × Option Int × FCls)} : reg.get? n = some .string →
       AstOfJson reg (.named n) (.str s a b) (.str s)
   | boolean {n : String} {b : Bool} : reg.get? n = some .boolean → AstOfJson reg (.named n) (.bool b) (.bool b)
-  | idStr {n : String} {s : String} {a : Option Int} {b : Option (String × Option Int)} : reg.get? n = some .id →
+  | idStr {n : String} {s : String} {a : Option Int} {b : Option (String × Option Int × FCls)} : reg.get? n = some .id →
       AstOfJson reg (.named n) (.str s a b) (.str s)
   | idInt {n : String} {k : Int} : reg.get? n = some .id → AstOfJson reg (.named n) (.int k) (.int k)
-  | customStr {n : String} {s : String} {a : Option Int} {b : Option (String × Option Int)} : reg.get? n = some .custom →
+  | customStr {n : String} {s : String} {a : Option Int} {b : Option (String × Option Int × FCls)} : reg.get? n = some .custom →
       AstOfJson reg (.named n) (.str s a b) (.str s)
   | customBool {n : String} {b : Bool} : reg.get? n = some .custom → AstOfJson reg (.named n) (.bool b) (.bool b)
-  | enum {n : String} {vs : List (String × PV)} {s : String} {a : Option Int} {b : Option (String × Option Int)} :
+  | enum {n : String} {vs : List (String × PV)} {s : String} {a : Option Int} {b : Option (String × Option Int × FCls)} :
       reg.get? n = some (.enum vs) → AstOfJson reg (.named n) (.str s a b) (.enum s)
   | list {t : Ty} {js : List JV} {ls : List Lit} : AstOfJsonL reg t js ls → AstOfJson reg (.list t) (.list js) (.list ls)
   | single {t : Ty} {j : JV} {l : Lit} : (∀ js, j ≠ .list js) → AstOfJson reg t j l → AstOfJson reg (.list t) j l
